@@ -264,7 +264,8 @@ func (p *srcPlugin) Run(ctx context.Context, stream pconnector.SourceRunStream) 
 		seq += size
 
 		if p.spec.ReadFaultAfter >= 0 && p.lastSent >= p.spec.ReadFaultAfter &&
-			(p.spec.ReadFaultInst == 0 || p.spec.ReadFaultInst == p.inst) {
+			((p.spec.ReadFaultUpTo > 0 && p.inst <= p.spec.ReadFaultUpTo) ||
+				(p.spec.ReadFaultUpTo == 0 && (p.spec.ReadFaultInst == 0 || p.spec.ReadFaultInst == p.inst))) {
 			w.Log.Add(Event{Kind: EvNote, Comp: p.spec.ID, Inst: p.inst, Src: p.idx, Seq: p.lastSent, Info: "read-fault"})
 			return fmt.Errorf("%s: source %s read failure after seq %d", Marker, p.spec.ID, p.lastSent)
 		}
@@ -443,6 +444,9 @@ func (p *dstPlugin) outcomeFor(src, seq, piece int) Outcome {
 	}
 	if o == OutHold && p.inst > 1 {
 		// a plugin only hangs in its first run, so that a later restart can finish
+		o = OutAck
+	}
+	if o == OutErr && p.spec != nil && p.spec.ErrInstMax > 0 && p.inst > p.spec.ErrInstMax {
 		o = OutAck
 	}
 	return o
